@@ -3,7 +3,7 @@
    helper registration are decided by the check on the real planner (every emitted sub-request is validated by the
    receiving evaluating fake against ITS OWN schema; coverage/helpers through C01's single-server equality). *)
 From Coq Require Import List String Bool Arith.
-From Pebbles Require Import Base.Json Plan.Vars Plan.VarsProofs Plan.Header Plan.HeaderProofs Merge.Model Plan.Steps Plan.StepsProofs Plan.StepsCount Plan.PlanCount Plan.Sanitize Plan.SanitizeProofs Plan.EndToEnd Plan.NarrowProofs.
+From Pebbles Require Import Base.Json Plan.Vars Plan.VarsProofs Plan.Header Plan.HeaderProofs Merge.Model Plan.Steps Plan.StepsProofs Plan.StepsCount Plan.PlanCount Plan.Sanitize Plan.SanitizeProofs Plan.EndToEnd Plan.NarrowProofs Plan.MergeProofs.
 Import ListNotations.
 Open Scope string_scope.
 
@@ -203,6 +203,17 @@ Example c02_listed_shape_now :
   = [SanField "me" "me" "Human" 0 [id_helper; Sanitize.typename_helper; SanField "phone" "phone" "String" 0 []]].
 Proof. exact listed_shape_is_settled. Qed.
 
+(* when several selections of one response key meet (addSelectionSetToSanitizedResult since fix 360a3f6), nothing that is
+   selected is dropped: what the selection set selected before and everything that is added are selected in the result,
+   at every depth — a field through the field with its response key that is already there (covers) *)
+Theorem merging_selections_loses_nothing : forall s new,
+  (forall x, covers s x -> covers (add_to_result s new) x) /\ (forall x, In x new -> covers (add_to_result s new) x).
+Proof. exact merging_loses_nothing. Qed.
+Example c02_both_selections_survive :
+  add_to_result [SanField "me" "me" "Human" 0 [SanField "name" "name" "String" 0 []]] [SanField "me" "me" "Human" 0 [SanField "phone" "phone" "String" 0 []]]
+  = [SanField "me" "me" "Human" 0 [SanField "name" "name" "String" 0 []; SanField "phone" "phone" "String" 0 []]].
+Proof. exact both_selections_survive. Qed.
+
 (* sanitizer and planner composed: for an operation written without fragments in which no field has a root type, the
    plan made from the sanitized selection consists of steps that ask their service only for its own fields — the
    shape hypothesis of the planner theorem is a consequence here, not a premise *)
@@ -232,6 +243,7 @@ Example c02_nonvacuous :
 Proof. reflexivity. Qed.
 
 Print Assumptions argument_variables_listed.
+Print Assumptions merging_selections_loses_nothing.
 Print Assumptions narrowed_selections_hold_no_plain_object_fragment.
 Print Assumptions object_typed_levels_hold_no_plain_object_fragment.
 Print Assumptions object_typed_fields_send_no_plain_object_fragment.
